@@ -280,7 +280,8 @@ Argument:
             # invocations are numbers. Report it to the user instead of crashing.
             raise UIError(
                 "The configuration in %s is not valid. Processing it failed with %s: %s\n"
-                % (args.config[0], type(exc).__name__, escape_braces(str(exc))), exc)
+                % (escape_braces(args.config[0]), type(exc).__name__,
+                   escape_braces(str(exc))), exc)
 
         if args.report_completion:
             return self._report_completion()
